@@ -35,10 +35,11 @@ impl<R: AsyncRead + Unpin + Send + Sync> AsyncReadPacket for R {
             self.read_exact(&mut buf).await?;
             ans |= (i32::from(buf[0] & 0b0111_1111)) << (7 * i);
             if buf[0] & 0b1000_0000 == 0 {
-                break;
+                return Ok(ans);
             }
         }
-        Ok(ans)
+        // the fifth group still announced another one: not a VarInt
+        Err(Error::InvalidEncoding)
     }
 
     async fn read_varlong(&mut self) -> Result<VarLong, Error> {
@@ -48,10 +49,11 @@ impl<R: AsyncRead + Unpin + Send + Sync> AsyncReadPacket for R {
             self.read_exact(&mut buf).await?;
             ans |= (i64::from(buf[0] & 0b0111_1111)) << (7 * i);
             if buf[0] & 0b1000_0000 == 0 {
-                break;
+                return Ok(ans);
             }
         }
-        Ok(ans)
+        // the tenth group still announced another one: not a VarLong
+        Err(Error::InvalidEncoding)
     }
 
     async fn read_string(&mut self) -> Result<String, Error> {
